@@ -1,4 +1,5 @@
 import ZmqVerif.Model.Sockets
+import ZmqVerif.Lemmas.WorldXpubSubs
 import ZmqVerif.Spec.PubSub
 import ZmqVerif.Lemmas.WorldPubReader
 /-!
@@ -119,5 +120,20 @@ theorem C11_world_pub_reader (fuel : Nat) (ps : Pipes) (s : Socket) (k : Ident) 
            ilookup s'.subsOf k = some ((msgsOf c).foldl onMsg subs)
        | none => rd.items ps = c) :=
   readerTask_spec fuel ps s k rd subs hsub ps' s' r h
+
+open Zmq.W in
+/-- **XPUB keeps its subscribers' lists exactly as PUB does — inside `recv`.**  After one poll of an XPUB `recv`: every
+subscriber's list is what it was, or gone with its peer — except that when the poll returns a message, the list of ONE
+subscriber (the sender, by `C05_world_recv`) has `onMsg` applied to exactly that message, which is handed to the
+application verbatim. -/
+theorem C11_world_xpub_subs (fuel : Nat) (w : World) (sid : Nat) (s : Socket) (hs : getSock w sid = some s)
+    (ht : s.typ = .xpub) (w' : World) (o : POut) (h : recvPoll fuel w sid = (w', o)) :
+    ∃ s', getSock w' sid = some s' ∧
+      (match (generalizing := false) o with
+       | .ready (.okMsg m) => ∃ k, ∀ j,
+           ilookup s'.subsOf j = none ∨ ilookup s'.subsOf j = ilookup s.subsOf j ∨
+           (j = k ∧ ∃ old, ilookup s.subsOf k = some old ∧ ilookup s'.subsOf k = some (onMsg old m))
+       | _ => ∀ j, ilookup s'.subsOf j = none ∨ ilookup s'.subsOf j = ilookup s.subsOf j) :=
+  recvPoll_xpub_subs fuel w sid s hs ht w' o h
 
 end Zmq.C11
